@@ -14,6 +14,9 @@ import (
 	"github.com/olric-data/olric/internal/discovery"
 	"github.com/vmihailenco/msgpack/v5"
 	"github.com/redis/go-redis/v9"
+	"github.com/olric-data/olric/internal/kvstore/table"
+	"github.com/olric-data/olric/internal/kvstore/entry"
+	"github.com/olric-data/olric/internal/cluster/partitions"
 )
 
 // member ids (64-bit hashes of name + birthdate) are renamed to small numbers in order of appearance
@@ -394,6 +397,82 @@ func init() {
 		defer rc.Close()
 		res := "R"
 		if err := rc.Do(ctx, "internal.node.updaterouting", payload, strconv.FormatUint(iv.RT.VerifCoordinator().ID, 10)).Err(); err != nil {
+			if _, isReply := err.(redis.Error); isReply {
+				res = "E"
+			} else {
+				res = "noreply"
+			}
+		}
+		if perr := cl.rawc(m).Ping(ctx).Err(); perr != nil {
+			return res + " member-unresponsive:" + errClass(perr)
+		}
+		return res + " alive"
+	})
+	// c.badfragment <m> <variant>: a fragment hand-over (INTERNAL.NODE.MOVEFRAGMENT) for a partition the member owns, whose
+	// table is a real encoded table with one field falsified: "offset" (write offset beyond the allocation), "hkey" (an index
+	// entry pointing outside the table), "vlen" (a value length that runs past the end), "short" (less memory than the offset
+	// says).  Reply: reply class and whether the member still answers.
+	register("c.badfragment", func(a []string) string {
+		m := cl.members[atoi(a[0])]
+		iv := m.db.VerifInternals()
+		parts := uint64(optInt(cl.opts, "parts", 7))
+		partID, found := uint64(0), false
+		for p := uint64(0); p < parts && !found; p++ {
+			if iv.Primary.PartitionByID(p).Owner().String() == m.addr {
+				partID, found = p, true
+			}
+		}
+		if !found {
+			return "no-partition"
+		}
+		t := table.New(512)
+		e := entry.New()
+		e.SetKey("crafted")
+		e.SetValue([]byte("value-of-the-crafted-entry"))
+		e.SetTimestamp(1)
+		if err := t.Put(12345, e); err != nil {
+			return "err:" + err.Error()
+		}
+		data, err := table.Encode(t)
+		if err != nil {
+			return "err:" + err.Error()
+		}
+		var pk table.Pack
+		if err := msgpack.Unmarshal(data, &pk); err != nil {
+			return "err:" + err.Error()
+		}
+		switch a[1] {
+		case "offset":
+			pk.Offset = pk.Allocated + 100
+		case "hkey":
+			pk.HKeys[12345] = pk.Allocated + 50
+		case "vlen":
+			// key length byte, key, ttl, timestamp, last access: the value length follows
+			at := 1 + len("crafted") + 24
+			pk.Memory[at], pk.Memory[at+1] = 0x7f, 0xff
+		case "short":
+			pk.Memory = pk.Memory[:len(pk.Memory)/2]
+		}
+		tdata, err := msgpack.Marshal(pk)
+		if err != nil {
+			return "err:" + err.Error()
+		}
+		type wirePack struct {
+			PartID  uint64
+			Kind    partitions.Kind
+			Name    string
+			Payload []byte
+		}
+		payload, err := msgpack.Marshal(wirePack{PartID: partID, Kind: partitions.PRIMARY, Name: "h", Payload: tdata})
+		if err != nil {
+			return "err:" + err.Error()
+		}
+		ctx, cancel := opCtx()
+		defer cancel()
+		rc := redis.NewClient(&redis.Options{Addr: m.addr, MaxRetries: -1, DialTimeout: 2 * time.Second, ReadTimeout: 4 * time.Second})
+		defer rc.Close()
+		res := "R"
+		if err := rc.Do(ctx, "internal.node.movefragment", payload).Err(); err != nil {
 			if _, isReply := err.(redis.Error); isReply {
 				res = "E"
 			} else {
